@@ -3,6 +3,21 @@
 import json, glob, os, subprocess
 root = os.path.dirname(os.path.dirname(os.path.abspath(__file__)))
 ids = [json.loads(l)["id"] for l in open(os.path.join(root, "properties.jsonl"))]
+
+def technique_of(c):
+    t = c.get("technique", "Lean 4 theorems over a hand-written executable model; model tied to /repo by differential execution (correspondence) and regenerated constants")
+    lp = c["lean_props"] if isinstance(c["lean_props"], list) else [c["lean_props"]]
+    leaf = [m.split(".")[-1] for m in lp if ".Leaf" in m or m.split(".")[-1] in ("C19Gen", "C19GenClock")]
+    skel = [m.split(".")[-1] for m in lp if ".Skel" in m]
+    ties = []
+    if leaf:
+        ties.append("Go-AST->Lean leaf translations regenerated on every run and proved equal to the model for all inputs (" + ", ".join(leaf) + ")")
+    if skel:
+        ties.append("control skeletons of the effectful functions regenerated on every run and pinned to the annotated transcription the model was written against (" + ", ".join(skel) + ")")
+    if ties:
+        t += " + regenerated ties: " + "; ".join(ties)
+    return t
+
 checks, na = [], []
 na_reasons = json.load(open(os.path.join(root, "props", "not_applicable.json"))) if os.path.exists(os.path.join(root, "props", "not_applicable.json")) else {}
 for pid in ids:
@@ -20,7 +35,7 @@ for pid in ids:
         "engine": "lean4-proof+correspondence",
         "level_claimed": {"category": c.get("level", "proof"), "text": c["level_text"], "design_ref": c.get("design_ref", "DESIGN.md section 8 / " + pid)},
         "level_note": c["level_note"],
-        "technique": c.get("technique", "Lean 4 theorems over a hand-written executable model; model tied to /repo by differential execution (correspondence) and regenerated constants"),
+        "technique": technique_of(c),
     })
 hooks_commits = subprocess.run(["git", "-C", "/repo", "log", "--format=%h %s", "--grep=^verif hooks"], capture_output=True, text=True).stdout.strip().split("\n")
 man = {
